@@ -69,3 +69,36 @@ Definition j01_gen (st : gsettings) (c : catalog) (structs : list gstruct) (qs :
   | Panic _ => [98]
   | Err _ => [99]
   end.
+
+(** * buildStructs / buildEnums against Model/GoModels, Model/GoEnums (hook values) *)
+From Verif Require Import Model.GoModels.
+
+Definition fields_eqb (a b : list gfield) : bool := list_eqb gfield_eqb a b.
+
+Fixpoint find_model (m : list (string * string * list gfield)) (s r : string) : option (list gfield) :=
+  match m with
+  | [] => None
+  | (s', r', fs) :: rest => if String.eqb s s' && String.eqb r r' then Some fs else find_model rest s r
+  end.
+
+Definition genum_eqb (a b : genum) : bool :=
+  String.eqb (ge_name a) (ge_name b)
+  && list_eqb (fun x y => String.eqb (fst x) (fst y) && String.eqb (snd x) (snd y)) (ge_consts a) (ge_consts b).
+
+(** observed: the structs buildStructs made (name, table, fields), whether exact names were asked for, the enums.
+    [0] all equal; 1 = number of structs; 2 = a struct's fields; 3 = a struct's name (exact names only); 4 = enums;
+    98/99 the model panics / fails.  Enums are compared only when their Go names are pairwise distinct (sort.Slice is not stable). *)
+Definition j01_models (st : gsettings) (c : catalog) (exact : bool) (structs : list gstruct) (enums : list genum) : list N :=
+  match model_structs st c with
+  | Panic _ => [98]
+  | Err _ => [99]
+  | Ok m =>
+      if negb (Nat.eqb (List.length m) (List.length structs)) then [1] else
+      if negb (forallb (fun s => match find_model m (fst (gst_table s)) (snd (gst_table s)) with
+                                 | Some fs => fields_eqb fs (gst_fields s)
+                                 | None => false
+                                 end) structs) then [2] else
+      if exact && negb (forallb (fun s => String.eqb (gst_name s) (exact_struct_name st c (fst (gst_table s)) (snd (gst_table s)))) structs) then [3] else
+      let me := build_enums (gs_rename st) c in
+      if nodup_str (map ge_name me) && negb (list_eqb genum_eqb me enums) then [4] else [0]
+  end.
